@@ -425,6 +425,28 @@ fn fn_found(sig: &syn::Signature, b: &syn::Block, span: Span) -> Found {
 fn find_in_items(items: &[syn::Item], path: &[String]) -> Option<Found> {
     for it in items {
         match it {
+            // `derive@Type`: the traits a struct or enum derives, printed as a parameterless
+            // function whose body lists them as paths
+            syn::Item::Struct(syn::ItemStruct { attrs, ident, .. })
+            | syn::Item::Enum(syn::ItemEnum { attrs, ident, .. })
+                if cfg_active(attrs) && path.len() == 1 && path[0] == format!("derive@{}", ident) =>
+            {
+                let mut names: Vec<String> = Vec::new();
+                for a in attrs {
+                    if a.path().is_ident("derive") {
+                        let _ = a.parse_nested_meta(|m| {
+                            names.push(path_segs(&m.path));
+                            Ok(())
+                        });
+                    }
+                }
+                return Some(Found {
+                    line: ident.span().start().line,
+                    params: "[]".to_string(),
+                    body: format!("[{}]", names.iter().map(|n| format!("(EPath {})", n)).collect::<Vec<_>>().join("; ")),
+                    tokens: names.join(","),
+                });
+            }
             syn::Item::Fn(f) if cfg_active(&f.attrs) => {
                 if f.sig.ident == path[0].as_str() {
                     if path.len() == 1 {
@@ -446,7 +468,12 @@ fn find_in_items(items: &[syn::Item], path: &[String]) -> Option<Found> {
                     None => (want.clone(), None),
                 };
                 // `std::sync::Arc<T>` is selected as `Arc`
-                if ty_base != want_ty && ty_base.rsplit("::").next() != Some(want_ty.as_str()) {
+                // `Type<Args>` in the target selects the impl for exactly that instantiation
+                if want_ty.contains('<') {
+                    if ty != want_ty {
+                        continue;
+                    }
+                } else if ty_base != want_ty && ty_base.rsplit("::").next() != Some(want_ty.as_str()) {
                     continue;
                 }
                 // the trait's last path segment; `Trait<Args>` in the target selects that
